@@ -4,6 +4,7 @@ import (
 	"bytes"
 	"encoding/json"
 	"fmt"
+	"github.com/deepteams/webp/animation"
 	"image"
 	"io"
 	"math/rand"
@@ -125,12 +126,31 @@ func c17Files(run *vx.Run) []c17File {
 	return fs
 }
 
+// c17Poison is a truncated two-frame animation (frames of a size no still of the check has).
+var c17Poison []byte
+
+func buildC17Poison(rng *rand.Rand) []byte {
+	var buf bytes.Buffer
+	e := animation.NewEncoder(&buf, 48, 40, &animation.EncodeOptions{Quality: 60, Lossless: true})
+	e.AddFrame(noiseNRGBA(rng, 48, 40, 0), 30*time.Millisecond)
+	e.AddFrame(noiseNRGBA(rng, 48, 40, 1), 30*time.Millisecond)
+	if err := e.Close(); err != nil {
+		vx.Fatal2("C17: building the animation: %v", err)
+	}
+	b := buf.Bytes()
+	return append([]byte(nil), b[:len(b)-7]...)
+}
+
 func checkC17(args []string) {
 	run := vx.NewRun("C17", "fault_enumeration", args)
 	activeRun = run
 	run.Rule = "every proper prefix (length 0..len-1) of every file of the structure classes; the cut position is classified by the syntax element the first removed byte belongs to, using the layout map computed by the TLA+ reader (spec/Riff.tla LayoutMap); distinct = distinct (file class, element class) pairs that were cut"
 	run.Assumptions = []string{"files come from this tree's encoder; the TLA+ strict reader must accept each complete file"}
 	files := c17Files(run)
+	c17Poison = buildC17Poison(rand.New(rand.NewSource(run.Seed + 5)))
+	if _, err := webp.GetFeatures(bytes.NewReader(c17Poison)); err == nil {
+		vx.Fatal2("C17: the truncated animation is accepted by GetFeatures")
+	}
 	byID := map[string][]byte{}
 	for _, f := range files {
 		byID[f.name] = f.data
@@ -184,6 +204,12 @@ func truncOne(pre []byte, full image.Image, fcfg image.Config, ffeat *webp.Featu
 		}
 	}()
 	identical := false
+	// a failed call precedes every prefix: a truncated animation whose parse fails after frames were seen (state a
+	// failed parse leaves behind must not turn the next truncated file into an accepted one)
+	if c17Poison != nil {
+		webp.GetFeatures(bytes.NewReader(c17Poison))
+		webp.Decode(bytes.NewReader(c17Poison))
+	}
 	// every entry point is fed twice: from a *bytes.Reader and from a plain stream (no Len, short reads)
 	for _, kind := range []string{"bytes.Reader", "stream"} {
 		rd := func() io.Reader {
